@@ -32,6 +32,7 @@ def axes_forms(rng, per):
 
 def explore(ctx):
     grid_common.neighbour_tie(ctx, max_len=3 if ctx.quick else 4)
+    grid_common.reused_adjacency_stream(ctx, 120 if ctx.quick else 1200)
     rng = ctx.rng('c17')
     # (i') the ways of declaring the axes all mean the same thing
     for shape in ([4], [2, 3], [3, 1, 4], [2, 2, 3], [1, 3, 2, 2], [5, 2]):
